@@ -12,13 +12,16 @@ from . import common, stubs
 
 ALGS = ['no', 'inf', 'lfu', 'lru', 'mru', 'rr']
 
-# argument alphabet: arg id -> entry (args, kwargs, received (x, y), key class, kind, value)
-def alphabet(nx=3, safe=False, unkey=None, variant='plain'):
-    """variant 'plain'   : stub f(x, y=0) = 1000+10x+y, key class = (x, y)
+# argument alphabet: arg id -> entry (args, kwargs, received (x, y), key class, kind, expected real value)
+def alphabet(nx=4, safe=False, unkey=None, variant='plain'):
+    """variant 'plain'   : stub f(x, y=0), key class = (x, y)
        variant 'ignore_y': decorated with ignore=('y',); stub value does not depend on y
        variant 'ignore_1': decorated with ignore=(1,) (the positional index of y)
-       variant 'tol0'    : decorated with tol=0; stub value depends on round(x) only"""
+       variant 'tol0'    : decorated with tol=0; stub value depends on round(x) only
+       variant 'tol1'    : decorated with tol=1; stub t(x, y=0.125) has a float default that is never passed
+    Normal bindings use x in stubs.XS[:nx] (one of them negative, results of several types incl. None)."""
     E = []
+    xs = stubs.XS[:nx]
 
     def add(args, kw, recv, cls, kind='ok'):
         if variant == 'plain':
@@ -26,11 +29,10 @@ def alphabet(nx=3, safe=False, unkey=None, variant='plain'):
         elif variant in ('ignore_y', 'ignore_1'):
             val = stubs._value(recv[0], 0)
         else:
-            val = stubs._value(round(recv[0]), 0)
-        E.append({'args': args, 'kw': kw, 'recv': recv, 'cls': cls, 'kind': kind,
-                  'val': 0 if kind == 'raise' else val})
+            val = stubs._value(int(round(recv[0])), 0)
+        E.append({'args': args, 'kw': kw, 'recv': recv, 'cls': cls, 'kind': kind, 'expect': val})
     if variant == 'plain':
-        for x in range(1, nx + 1):
+        for x in xs:
             add((x,), {}, (x, 0), (x, 0))
         add((1, 0), {}, (1, 0), (1, 0))
         add((), {'x': 2}, (2, 0), (2, 0))
@@ -38,7 +40,7 @@ def alphabet(nx=3, safe=False, unkey=None, variant='plain'):
         add((7,), {}, (7, 0), (7, 0), 'raise')
         add((8,), {}, (8, 0), (8, 0), 'raise')
     elif variant in ('ignore_y', 'ignore_1'):
-        for x in range(1, nx + 1):
+        for x in xs:
             add((x,), {}, (x, 0), (x,))
         add((1, 5), {}, (1, 5), (1,))
         add((), {'x': 2, 'y': 9}, (2, 9), (2,))
@@ -46,19 +48,31 @@ def alphabet(nx=3, safe=False, unkey=None, variant='plain'):
         add((7, 2), {}, (7, 2), (7,), 'raise')
         add((8,), {}, (8, 0), (8,), 'raise')
     elif variant == 'tol0':
-        for x in range(1, nx + 1):
+        for x in xs:
             add((float(x),), {}, (float(x), 0), (x,))
         add((1.2,), {}, (1.2, 0), (1,))
         add((), {'x': 1.8}, (1.8, 0), (2,))
         add((0.9, 0), {}, (0.9, 0), (1,))
         add((7.0,), {}, (7.0, 0), (7,), 'raise')
         add((8.0,), {}, (8.0, 0), (8,), 'raise')
+    elif variant == 'tol1':
+        for x in xs:
+            add((float(x),), {}, (float(x), 0.125), (x,))
+        add((1.04,), {}, (1.04, 0.125), (1,))
+        add((), {'x': 1.96}, (1.96, 0.125), (2,))
+        add((0.98,), {}, (0.98, 0.125), (1,))
+        add((7.0,), {}, (7.0, 0.125), (7,), 'raise')
+        add((8.0,), {}, (8.0, 0.125), (8,), 'raise')
     else:
         raise ValueError(variant)
     if safe and unkey is not None:
         E.append({'args': (unkey,), 'kw': {}, 'recv': (unkey, 0), 'cls': None, 'kind': 'unkey',
-                  'val': stubs._value(unkey, 0)})
+                  'expect': stubs._value(unkey, 0)})
     return E
+
+
+def same_value(a, b):
+    return type(a) is type(b) and a == b
 
 
 def make_keymap(klepto, spec):
@@ -123,11 +137,14 @@ class Recorder(object):
             eff = self.kmspec[0]
             if eff in ('raw', 'hash'):
                 unkey = [1]                  # unhashable: fails in the keymap or at the dict lookup
+            elif cfg.get('unkey') == 'value':
+                unkey = stubs.BadValue()     # encoding fails with ValueError
             else:
-                unkey = stubs.BadRepr()      # cannot be encoded by str/repr/pickle/named hash
+                unkey = stubs.BadRepr()      # cannot be encoded by str/repr/pickle/named hash (TypeError)
         self.variant = cfg.get('variant', 'plain')
-        self.args = alphabet(cfg.get('nx', 3), self.safe, unkey, self.variant)
-        self.funcs = stubs.FUNCS if self.variant == 'plain' else (stubs.GFUNCS if self.variant.startswith('ignore') else stubs.HFUNCS)
+        self.args = alphabet(cfg.get('nx', 4), self.safe, unkey, self.variant)
+        self.funcs = {'plain': stubs.FUNCS, 'ignore_y': stubs.GFUNCS, 'ignore_1': stubs.GFUNCS, 'tol0': stubs.HFUNCS,
+                      'tol1': stubs.TFUNCS}[self.variant]
         self.ni = cfg.get('ni', 1)
         self.na = cfg.get('na', 2)
         self.slots = []
@@ -163,6 +180,28 @@ class Recorder(object):
             path = os.path.join(w, 'S%s.db' % tag)
             c = A.sqltable_archive('sqlite:///%s?table=memo' % path, cached=True)
             return c, Slot('sql', c.archive, path)
+        if backend == 'flaky':
+            base = self.klepto._archives.dict_archive
+
+            class FlakyArchive(base):
+                """an in-memory archive whose next write can be made to fail (fault injection for C07)"""
+                fail_next = 0
+
+                def _maybe_fail(self):
+                    if self.fail_next > 0:
+                        self.fail_next -= 1
+                        raise OSError('injected archive write failure')
+
+                def __setitem__(self, k, v):
+                    self._maybe_fail()
+                    base.__setitem__(self, k, v)
+
+                def update(self, *a, **kw):
+                    self._maybe_fail()
+                    base.update(self, *a, **kw)
+            arch = FlakyArchive()
+            c = A.cache(archive=arch)
+            return c, Slot('flaky', arch)
         if backend == 'direct-dict':
             c = A.dict_archive('dd' + tag, cached=False)
             return c, None
@@ -213,6 +252,8 @@ class Recorder(object):
             kw['ignore'] = (1,)
         elif self.variant == 'tol0':
             kw['tol'] = 0
+        elif self.variant == 'tol1':
+            kw['tol'] = 1
         return cls, pos, kw
 
     @staticmethod
@@ -241,16 +282,29 @@ class Recorder(object):
                 pass
         return None
 
+    def code(self, k):
+        return 1000 + 10 * k
+
     def _project(self, d):
-        """real dict -> sequence over key ids; unknown keys are reported in slot nk (the last)"""
+        """real dict -> sequence over key ids; a value is reported by the CODE of its key class when it is the
+        expected result of that class (rich real values: int, float, str, None, tuple), else as -9;
+        unknown keys are reported in slot nk (the last)"""
         out = [0] * self.nk
         for rk, v in d.items():
             k = self._keyid(rk)
             if k is None:
-                out[self.nk - 1] = -7 if not isinstance(v, int) or isinstance(v, bool) else (v or -8)
+                out[self.nk - 1] = -7
+            elif k in self.expect and same_value(v, self.expect[k]):
+                out[k - 1] = self.code(k)
             else:
-                out[k - 1] = v if (isinstance(v, int) and not isinstance(v, bool) and v != 0) else -9
+                out[k - 1] = -9
         return out
+
+    def ret_code(self, a, r):
+        ent = self.args[a - 1]
+        if same_value(r, ent['expect']):
+            return 1410 if ent['kind'] == 'unkey' else self.code(self.bindings.index(ent['cls']) + 1)
+        return -5
 
     def _slot_of(self, archive_obj):
         for n, s in enumerate(self.slots, 1):
@@ -370,6 +424,10 @@ class Recorder(object):
                 bindings.append(ent['cls'])
         self.bindings = bindings
         self.nk = len(bindings) + 1          # last id collects unknown keys
+        self.expect = {}
+        for ent in self.args:
+            if ent['kind'] == 'ok':
+                self.expect[bindings.index(ent['cls']) + 1] = ent['expect']
         f = self.inst[0]
         self.table = []
         self.keyable = True
@@ -398,14 +456,15 @@ class Recorder(object):
         fk = [-1] * self.nk
         for ent in self.args:
             kinds.append(ent['kind'])
-            fvals.append(ent['val'])
             if ent['kind'] == 'unkey':
                 keyof.append(1)
+                fvals.append(1410)
             else:
                 k = self.bindings.index(ent['cls']) + 1
                 keyof.append(k)
+                fvals.append(self.code(k) if ent['kind'] == 'ok' else 0)
                 if ent['kind'] == 'ok':
-                    fk[k - 1] = ent['val']
+                    fk[k - 1] = self.code(k)
         inst = []
         for ic in self.icfg:
             ic = ic or {'alg': 'inf'}
@@ -433,7 +492,7 @@ class Recorder(object):
                 stubs.LAST_EXC[0] = None
                 try:
                     r = f(*a, **kw)
-                    ev['ret'] = r if isinstance(r, int) and not isinstance(r, bool) else -5
+                    ev['ret'] = self.ret_code(o['a'], r)
                 except BaseException as e:
                     ev['exc'] = 'same' if e is stubs.LAST_EXC[0] else type(e).__name__
             elif name == 'lookup':
@@ -441,7 +500,7 @@ class Recorder(object):
                 a, kw = ent['args'], ent['kw']
                 try:
                     r = f.lookup(*a, **kw)
-                    ev['ret'] = r if isinstance(r, int) and not isinstance(r, bool) else -5
+                    ev['ret'] = self.ret_code(o['a'], r)
                 except KeyError:
                     ev['exc'] = 'KeyError'
             elif name == 'key':
@@ -470,6 +529,10 @@ class Recorder(object):
                 f.archived(True)
             elif name == 'set_archive':
                 f.archive(self.slots[o['x'] - 1].obj)
+            elif name == 'arm_fault':
+                c = f.__cache__()
+                if c.archived() and hasattr(c.archive, 'fail_next'):
+                    c.archive.fail_next = 1
             elif name == 'info':
                 f.info()
             elif name == 'wrapped':
@@ -521,9 +584,9 @@ def run_sequence(cfg, ops, workdir):
         o = dict(o)
         if o['op'] == 'decorate' and 'icfg' not in o:
             o['icfg'] = icfg
-        if o['op'] == 'set_archive' and o['x'] > len(r.slots):
-            # create the second archive on demand (an in-memory dict archive)
-            c, slot = r._new_archive('dictarch', 'x%d' % o['x'])
+        while o['op'] == 'set_archive' and o['x'] > len(r.slots):
+            # create further archives on demand (in-memory dict archives)
+            c, slot = r._new_archive('dictarch', 'x%d' % (len(r.slots) + 1))
             r.slots.append(slot)
         if r.inst[0] is None:
             break
@@ -546,9 +609,9 @@ def random_ops(rng, n, cfg, nargs, profile='mixed'):
         if profile == 'calls' or r < 0.62:
             ops.append({'op': 'call', 'a': rng.choice(normal)})
         elif r < 0.70:
-            ops.append({'op': 'lookup', 'a': rng.choice(normal[:6])})
+            ops.append({'op': 'lookup', 'a': rng.choice(normal[:7])})
         elif r < 0.74:
-            ops.append({'op': 'key', 'a': rng.choice(normal[:6])})
+            ops.append({'op': 'key', 'a': rng.choice(normal[:7])})
         elif r < 0.78:
             ops.append({'op': 'dump'})
         elif r < 0.81 and profile != 'nobulk':
@@ -563,6 +626,8 @@ def random_ops(rng, n, cfg, nargs, profile='mixed'):
             ops.append({'op': 'loadk', 'keys': sorted(rng.sample([1, 2, 3], rng.randint(1, 2)))})
         elif r < 0.95:
             ops.append({'op': 'dumpk', 'keys': sorted(rng.sample([1, 2, 3], rng.randint(1, 2)))})
+        elif r < 0.955 and profile == 'setarch':
+            ops.append({'op': 'set_archive', 'x': rng.choice([1, 2])})
         elif r < 0.97:
             ops.append({'op': 'info'})
         else:
